@@ -75,6 +75,36 @@ Theorem C42_prop_of_model_tampered_partial : forall i x,
 Proof. exact prop_C42_of_model_tampered. Qed.
 Print Assumptions C42_prop_of_model_tampered_partial.
 
+(* Completeness (the prefix can be everything): for every suite shape that exists in cipher_suites.go
+   (cfg_ok: CBC block size 8 or 16, explicit IV empty or one block) and every peer whose CBC padding the
+   receiving version accepts (pads_ok: SSLv3 looks only at the length byte - removePaddingSSL30 -, TLS
+   requires uniform padding - removePadding), the untouched stream is delivered completely, Read ends
+   with io.EOF and the final sequence number is the number of records. *)
+Theorem C42_model_untampered : forall x, wf_base x = true -> cfg_ok (i_cfg x) = true -> pads_ok x = true ->
+  receive sbody sopen (i_cfg x) (orig_wire x) 0 =
+  (sent_bytes (i_writes x), 1, Z.of_nat (length (S_of x))).
+Proof. exact model_untampered. Qed.
+Print Assumptions C42_model_untampered.
+
+(* CENTRAL THEOREM.  For every input that decodes to a well-formed x (wf_C42: suite shape of the table,
+   byte writes, stream below 16000 bytes, and a script that changes nothing the receiver reads is written
+   as the empty script - the generator normalises such scripts) and lies outside finding class 1, the
+   property predicate evaluated by the harness holds of the model's output. *)
+Theorem C42_prop_of_model : forall i x,
+  dec_C42 i = Some x -> wf_C42 x = true -> kf_C42 i = 0 -> prop_C42 i (run_C42 i) = true.
+Proof. exact prop_C42_of_model. Qed.
+Print Assumptions C42_prop_of_model.
+(* generated cases satisfy wf_C42 (corpus cases: AEAD tag flip, RC4 replay, forged close_notify, clean CBC) *)
+Example C42_wf_examples :
+  (exists x, dec_C42 ex_flip_tag = Some x /\ wf_C42 x = true) /\
+  (exists x, dec_C42 ex_replay = Some x /\ wf_C42 x = true) /\
+  (exists x, dec_C42 ex_forged_close = Some x /\ wf_C42 x = true) /\
+  (exists x, dec_C42 ex_clean = Some x /\ wf_C42 x = true /\ pads_ok x = true) /\
+  (exists x, dec_C42 ex_ssl3_pad_tls = Some x /\ wf_C42 x = true /\ pads_ok x = false /\
+             run_C42 ex_ssl3_pad_tls = VL [VB []; VZ 120; VZ 0]) /\
+  (exists x, dec_C42 ex_ssl3_pad_ssl3 = Some x /\ wf_C42 x = true /\ pads_ok x = true).
+Proof. exact wf_examples_lemma. Qed.
+
 (* Finding 1 (refutation of "every tampering is detected as an error"): dropping the last application
    record and the close_notify is reported as plain io.EOF. *)
 Theorem C42_tail_truncation_refuted : exists i x,
